@@ -38,6 +38,7 @@ def run(F, rep, tier="quick", extra=None, only=None):
     check_hex_helpers(F, rep)
     check_from_str(F, rep)
     check_fmt(F, rep)
+    check_from_hex(F, rep)
     check_pack(F, rep)
     check_pack_forwarders(F, rep)
     check_named(F, rep)
@@ -293,6 +294,32 @@ def check_pack(F, rep):
                     if t.startswith("rgb::channels::"):
                         orders.add(t)
         rep.ob("PACK", "%s[%s]" % pair, orders == {want}, "channel order %s (expected %s)" % (sorted(orders), want), F.loc(b))
+
+
+# ------------------------------------------------------------------------------------ HEX-FWD
+def check_from_hex(F, rep):
+    """HEX-FWD: `Rgb::from_hex` / `Rgba::from_hex` are documented as `hex.parse()`: the strictness decided for FromStr (HEX-1/2) holds for them
+    only if they hand the string to `parse` untouched (no trim, no case folding, no prefix handling of their own)."""
+    n = 0
+    for b in F.bodies:
+        if b["name"] != "from_hex" or not b["file"].endswith("rgb/rgb.rs") or "::test" in b["path"]:
+            continue
+        n += 1
+        calls, other = [], []
+        recv_ok = False
+        for node, _p in facts.walk(b["body"]):
+            c = node.get("c")
+            if isinstance(c, dict) and "d" in c:
+                calls.append(F.S[c["d"]].split("::")[-1])
+                if node.get("k") == "mcall" and node.get("n") == "parse":
+                    r = node["r"]
+                    recv_ok = r.get("k") == "path" and isinstance(r.get("res"), dict) and r["res"].get("k") == "local" and r["res"].get("n") == (b["params"][0].get("n") if b.get("params") else None)
+            elif node.get("k") not in ("path", "block", "mcall", "call"):
+                other.append("<%s>" % node.get("k"))
+        ok = calls == ["parse"] and recv_ok and not other
+        rep.ob("HEX-FWD", "from_hex[%s]" % (b["_impl"]["self_s"] if b["_impl"] else b["path"]), ok,
+               "calls %s on %s%s" % (calls, "the argument itself" if recv_ok else "something other than the argument", (" " + " ".join(other)) if other else ""), F.loc(b), nontrivial=False)
+    rep.floor("from_hex constructors", n, 2)
 
 
 # ------------------------------------------------------------------------------------ PACK-FWD
